@@ -22,7 +22,8 @@ TRUSTED = ["harness/c01.cpp Counted element type (global live counter, heap payl
 ASSUMPTIONS = ["malloc/realloc/free succeed and behave as allocate-copy-release (sizes stay far below INT_MAX)",
                "memmove/memcpy of whole elements = bitwise relocation of the objects (the element types used are trivially relocatable)",
                "sizeof(int)=4, sizeof(String)=24, sizeof(Counted)=8 (static_assert in the harness) select the malloc/realloc path in reserve()",
-               "String copy/assignment/comparison behave as value semantics on byte strings (C03)"]
+               "String copy/assignment/comparison behave as value semantics on byte strings (C03); String elements are NUL-free so that "
+               "operator< (strcmp) is the strict total lexicographic order on them"]
 TECHNIQUE = ("Lean 4 theorems (block-level refinement of the cell-level member functions, heap-level simulation to shared "
              "sequences, lifecycle invariant) + differential correspondence check under ASan/LSan with an independent python oracle")
 LEVEL_TEXT = ("Proved in Lean 4 about the executable model the driver runs (AslModel/Array.lean: every member of Array written as the "
@@ -34,20 +35,19 @@ LEVEL_TEXT = ("Proved in Lean 4 about the executable model the driver runs (AslM
               "reference semantics; (2) array_refines_seq_partial - for EVERY finite history of the 36 protocol operations through six "
               "handles and clones in which no operation increases the capacity of a block whose rc > 1, every call result and every "
               "handle's (elements, rc()) equal the reference semantics 'handles -> shared sequences' and no access leaves live storage "
-              "(simulation with block-id renaming, rc = number of handles, no dangling handle); quicksort_total - the transcribed Hoare "
-              "quicksort of sort() never indexes outside its sequence and terminates, for every irreflexive <, so the refinement needs no "
-              "hypothesis about sort; (3) lifecycle - in every such "
+              "(simulation with block-id renaming, rc = number of handles, no dangling handle); quicksort_total / quicksort_sorted_perm - the "
+              "transcribed Hoare quicksort of sort() never indexes outside its sequence, terminates (every irreflexive <) and returns the "
+              "sorted permutation (every strict total order), so the refinement needs no hypothesis about sort and the value of sort() "
+              "in the reference semantics is the sorted permutation; clone_independent, stack_lifo, queue_fifo in the reference semantics; "
+              "(3) lifecycle - in every such "
               "reachable state live objects = total length of live blocks, and with the last handle gone no block and no object "
               "remains; (4) array_full_counterexample - without the hypothesis the statement is false (a=[]; b=a; a<<0<<1<<2<<3). "
               "The model is tied to the current source on every run by the correspondence check (real Array/Stack/Queue of int, String "
               "and a counted heap-payload type under ASan/LSan, all six handles compared after every operation) and an independent "
               "python reference.")
 LEVEL_NOTE = ("Partial: the refinement is stated under the decidable hypothesis AllSafe = 'no operation increases the capacity of a "
-              "block whose rc > 1' (known finding shared-growth; harness and model skip exactly those operations). The VALUE of sort(): the "
-              "sequence the reference semantics assigns to a sorted array is defined by the model's quicksort; proved about it: total and "
-              "in bounds (quicksort_total), a permutation of the same length (quicksort_perm_partial), equal to insertion sort for all "
-              "order patterns of up to 4 elements and all sequences of length <= 6 over 3 values (quicksort_small_exhaustive_partial); "
-              "sortedness for all inputs (quicksort_full) is NOT proved and is validated by K and the python sorted() oracle. Temporaries' rc++/rc-- pairs inside clone()/concat() are collapsed in the "
+              "block whose rc > 1' (known finding shared-growth; harness and model skip exactly those operations). "
+              "Temporaries' rc++/rc-- pairs inside clone()/concat() are collapsed in the "
               "model. Trusted: Lean kernel, harness, generator; malloc/realloc/memmove as allocate-copy-release and bitwise relocation; "
               "the element types are trivially relocatable. The growth policy (3, 2s, max(2s,m)) is transcribed in the model and used "
               "for the skip decisions: a harmless change of it is reported as VIOLATION ... no-failing-input-found. New cells of "
